@@ -4,6 +4,7 @@
 mod c05;
 mod c11;
 mod c15;
+mod c16;
 mod common;
 
 use common::*;
@@ -131,6 +132,11 @@ fn run_shard(sh: &mut Shard) {
 			let (r, p) = if sh.tier == "thorough" { (40, 20) } else { (12, 4) };
 			sh.run_workloads("burst", n, c15::workload(true), r, p, |wl, base| c15::execute(wl, base));
 		},
+		"C16" => {
+			let n = scaled(sh, 140, 2_800);
+			let (r, _p) = if sh.tier == "thorough" { (400, 0) } else { (60, 0) };
+			sh.run_workloads("threaded", n, c16::workload(), r, 0, |wl, base| c16::execute(wl, base));
+		},
 		_ => {},
 	}
 }
@@ -178,6 +184,11 @@ fn main() {
 					let wl = Arc::new(wl);
 					run_schedules(move || c11::execute(wl.clone(), &base), Sched::Replay(schedule), &scratch.join("sched"))
 				},
+				"C16" => {
+					let wl: c16::Workload = serde_json::from_value(case.get("workload").cloned().unwrap_or_default()).expect("workload");
+					let wl = Arc::new(wl);
+					run_schedules(move || c16::execute(wl.clone(), &base), Sched::Replay(schedule), &scratch.join("sched"))
+				},
 				_ => {
 					eprintln!("unknown property {id}");
 					std::process::exit(2)
@@ -199,6 +210,10 @@ fn main() {
 					"C11" => {
 						let wl: Arc<c11::Workload> = Arc::new(serde_json::from_value(case.get("workload").cloned().unwrap_or_default()).expect("workload"));
 						run_schedules(move || c11::execute(wl.clone(), &base), Sched::Random(seed(), 600), &scratch.join("sched"))
+					},
+					"C16" => {
+						let wl: Arc<c16::Workload> = Arc::new(serde_json::from_value(case.get("workload").cloned().unwrap_or_default()).expect("workload"));
+						run_schedules(move || c16::execute(wl.clone(), &base), Sched::Random(seed(), 600), &scratch.join("sched"))
 					},
 					_ => {
 						let wl: Arc<c15::Workload> = Arc::new(serde_json::from_value(case.get("workload").cloned().unwrap_or_default()).expect("workload"));
